@@ -24,5 +24,6 @@ def queries(tier, prop='C03'):
             q = dict(entry='q_f_' + e, cfg={'FLAV': fl}, unwind=24, unwindset=UW, budget=120 if tier == 'quick' else 600, ub=ub, nofunc=ub)
             if e == 'swap_self': q['kf_only'] = 'C03_inplace_function_self_swap'   # the whole query lies inside the known-finding region
             out.append(q)
-    for q_ in out: q_['lazy_trace'] = True   # verdict first, counterexample trace only when an obligation fails (engine/runner.py)
+    for q_ in out:
+        q_['lazy_trace'] = True   # verdict first, counterexample trace only when an obligation fails (engine/runner.py)
     return out
